@@ -274,9 +274,34 @@ def recv_cfg_lit(cfg):
     return '((7, %s, %s), %s)' % (booll(cfg['balance']), booll(cfg['low_latency']), srcs)
 
 
-def run_receiver_case(rng, budget=60, adversarial=False):
+def gen_streams_edge(rng, w):
+    """one well-formed publisher over a loss-free FIFO channel (the hypotheses of Edge.edge_lossless): groups of
+    one id = its data parts then the heartbeat, ids strictly increasing (gaps allowed), 1-3 distinct visible topics
+    which may change from group to group"""
+    K = rng.randint(2, 9)
+    mid = rng.choice([0, 0, 0, 3, 40])
+    sid = 10
+    groups, st = [], []
+    for _ in range(K):
+        tl = rng.sample(['main', 'a', 'b', 'x', 'y/z'], rng.randint(1, 3))
+        parts = []
+        for t in tl:
+            pay = w.new_pay(src=0, sid=sid, mid=mid, topic=t, topics=tl)
+            parts.append((t, pay))
+            st.append(dict(wtopic='/' + t + '/', sid=sid, mid=mid, topics=tl, bal=0, pay=pay))
+        st.append(dict(wtopic='//', sid=sid, mid=mid, topics=tl, bal=0, pay=0))
+        groups.append(((mid, sid), parts))
+        mid += rng.choice([1, 1, 1, 2, 7])
+    w.streams[0] = st
+    return groups
+
+
+def run_receiver_case(rng, budget=60, adversarial=False, edge=False):
     """-> dict(cfg, items=[(lit, outs, digest, raw)], returns=[...], prov)"""
     cfg = gen_recv_config(rng)
+    if edge:
+        cfg = dict(balance=False, low_latency=rng.random() < 0.3, srcs=[dict(eph=0, mode=None)])
+    groups = None
     w = RecvWorld(rng, len(cfg['srcs']), budget, adversarial)
     returns = []
     calls = []
@@ -289,7 +314,10 @@ def run_receiver_case(rng, budget=60, adversarial=False):
         r = ZMQReceiver(addrs, 'C7', oob, cfg['balance'], cfg['low_latency'])
         # unique ids are random strings; nothing to canonicalise beyond the source index
         w.recv = r
-        gen_streams(rng, w, cfg, adversarial)
+        if edge:
+            groups = gen_streams_edge(rng, w)
+        else:
+            gen_streams(rng, w, cfg, adversarial)
         next_state = None
         try:
             while True:
@@ -299,7 +327,7 @@ def run_receiver_case(rng, budget=60, adversarial=False):
                     w.begin('(IOob 55)', ['oob', 55])
                     r.send_oob([55])
                     continue
-                state = next_state if rng.random() < 0.6 else None
+                state = next_state if rng.random() < 0.6 and not edge else None
                 if adversarial and rng.random() < 0.1:
                     state = (state or 0) + rng.choice([1, 2, 5])
                 timeout = rng.choice([0, 100, 100, 100, 250, None])
@@ -330,12 +358,13 @@ def run_receiver_case(rng, budget=60, adversarial=False):
                     calls[-1]['ret'] = dict(data={t: m[0] for t, m in data.items()}, id=st.msg_id, bal=bal)
                     returns.append(calls[-1])
                     next_state = st.msg_id + 1 if rng.random() < 0.8 else None
-                if not any(w.streams) and rng.random() < 0.5:
+                if not any(w.streams) and rng.random() < 0.5 and not (edge and any(s.inbox for s in w.subs)):
                     break
         except ScriptEnd:
             pass
         w.close_last()
-    return dict(cfg=cfg, items=w.items, calls=calls, prov=w.prov)
+        drained = not any(w.streams) and not any(s.inbox for s in w.subs) and not any('raised' in c for c in calls)
+    return dict(cfg=cfg, items=w.items, calls=calls, prov=w.prov, groups=groups, drained=drained)
 
 
 def recv_case_lit(case):
@@ -437,11 +466,18 @@ def recv_oracle(run, case, props, wf):
             if last_id is not None and rid <= last_id and legal_state:
                 run.violation('order:not-increasing %d after %d' % (rid, last_id), 'returned id %d after %d' % (rid, last_id), summary)
         last_id = rid
-    if 'C05' in props:
+    if props & {'C04', 'C05', 'C06'}:
         for it in case['items']:
             for o in it[1]:
-                if o[0] == 'u' and cfg['srcs'][o[1]]['eph'] >= 2:
+                if 'C05' in props and o[0] == 'u' and cfg['srcs'][o[1]]['eph'] >= 2:
                     run.violation('eph2:pushed src=%d' % o[1], "a '??' source sent flow-control traffic", summary)
+                # a request names the mode of THE SOURCE IT IS SENT TO: a synchronized source asked as ephemeral stops
+                # waiting for this consumer (frames lost), an ephemeral one asked as synchronized is blocked by it
+                if o[0] == 'u' and o[2][2] > -2 and cfg['srcs'][o[1]]['eph'] < 2:
+                    want, got = int(cfg['srcs'][o[1]]['eph']), int(o[2][3] or 0)
+                    if bool(want) != bool(got):
+                        run.violation('request:wrong-mode src=%d sent-eph=%s configured-eph=%s' % (o[1], got, want),
+                                      'the request sent to source %d says eph=%s but the source is configured eph=%s' % (o[1], got, want), summary)
 
 
 # =====================================================================================================
@@ -903,6 +939,40 @@ def proto_component_check(run, props, n_recv, n_send, recv_fn='run_receiver'):
     run.model_disagree('sender', IMPORTS, 'run_sender', SEND_TYPE, cases, shard=60)
     if cases:
         run.samples.append(dict(family='sender', cfg=cases[0][2]['cfg'], first_items=cases[0][2]['script'][:6]))
+
+
+EDGE_IMPORTS = 'From OF Require Import Proto.Wire Proto.Receiver Proto.Edge.'
+EDGE_TYPE = '(list ((Z * Z) * list (str * Z)) * bool) * list ritem'
+
+def edge_cases(run, n):
+    """the lossless edge (Edge.edge_lossless / C03_edge_lossless): the REAL ZMQReceiver driven through schedules that are
+    shown, by evaluation inside Coq, to satisfy the theorem's hypotheses; the frames it hands out are compared with the
+    model's and judged against the published sequence (a prefix; all of it once the socket is drained)"""
+    rng = run.rng
+    cases = []
+    for k in range(n):
+        c = run_receiver_case(rng, budget=rng.choice([40, 80, 140]), edge=True)
+        pub = [[mid, [[t, p] for t, p in parts]] for (mid, _sid), parts in c['groups']]
+        got = [[x['ret']['id'], [[t, p] for t, p in x['ret']['data'].items()]] for x in c['calls'] if x.get('ret')]
+        summary = dict(cfg=c['cfg'], groups=pub, script=[it[3] for it in c['items']])
+        if got != pub[:len(got)]:
+            j = next((i for i in range(len(got)) if i >= len(pub) or got[i] != pub[i]), len(pub))
+            what = 'lost-first' if j == 0 else 'not-a-prefix'
+            run.violation('edge:%s at=%d' % (what, j), 'the consumer was handed %s, the publisher sent %s' % (got[:j + 1][-2:], pub[:j + 1][-2:]), summary)
+        elif c['drained'] and len(got) != len(pub):
+            run.violation('edge:dropped %d of %d' % (len(pub) - len(got), len(pub)),
+                          'everything was delivered and read but only %d of %d frames were handed to the application' % (len(got), len(pub)), summary)
+        run.count('edge:cases')
+        run.count('edge:frames-returned', len(got))
+        run.count('edge:drained' if c['drained'] else 'edge:not-drained')
+        run.count('edge:timeouts', sum(1 for x in c['calls'] if 'ret' in x and x['ret'] is None))
+        run.seen(('e', recv_case_lit(c)), nontrivial=bool(got))
+        gl = listl(pairl(pairl(zl(mid), zl(sid)), listl(pairl(strl(t), zl(p)) for t, p in parts)) for (mid, sid), parts in c['groups'])
+        lit = pairl(pairl(gl, booll(c['cfg']['low_latency'])), listl(it[0] for it in c['items']))
+        cases.append((lit, [True, got, bool(c['drained'])], summary))
+    run.model_disagree('edge', EDGE_IMPORTS, 'run_edge', EDGE_TYPE, cases, shard=60)
+    if cases:
+        run.samples.append(dict(family='edge', groups=cases[0][2]['groups'], first_items=cases[0][2]['script'][:8]))
 
 
 # =====================================================================================================
